@@ -89,3 +89,29 @@ Example C12_records_example :
 Proof. split; [reflexivity | vm_compute; reflexivity]. Qed.
 Example C12_checker_example : cadence_checker main_prog = true /\ exists r, main_out_block = Seq Integrate r.
 Proof. split; [exact main_cadence_checked | eexists; vm_compute; reflexivity]. Qed.
+
+(** * The whole program (set-up skeleton [main_setup] + [main_prog], Model/Setup.v)
+
+    The set-up reads of the configuration only `renormalize >= 0` (the one guard of the generated
+    skeleton the driver model knows); opaque statements and conditions are an arbitrary environment
+    [ev].  Two whole-program runs that differ in the output schedule only, under the same
+    environment and from the same state, leave the set-up the same way; when they reach the end of
+    main() their dynamic parts agree (and the tracked particles, with [t = true]). *)
+From Inovesa Require Import Model.Setup Proofs.SetupP Proofs.SetupMainP.
+
+Theorem C12_setup_ignores_output_schedule :
+  su_guards main_setup = [GRenorm0] /\
+  forall (K : kern) (sig : Z -> bool) (ev : senv K) (c1 c2 : cfg) (s : st K), renorm c1 = renorm c2 ->
+    sexec sig ev c1 main_setup s = sexec sig ev c2 main_setup s.
+Proof. exact (conj (main_setup_guards) (fun K => main_setup_ignores_cadence K)). Qed.
+Print Assumptions C12_setup_ignores_output_schedule.
+
+Theorem C12_cadence_independence_whole_program :
+  forall (K : kern) (ev : senv K) (c1 c2 : cfg) (t : bool) (s : st K), shared c1 c2 ->
+    match full_run nosig ev c1 main_setup main_prog s, full_run nosig ev c2 main_setup main_prog s with
+    | Finished a, Finished b => dynx K t a = dynx K t b
+    | Early a, Early b | Crashed a, Crashed b => a = b
+    | _, _ => False
+    end.
+Proof. exact (fun K => main_whole_program_cadence K). Qed.
+Print Assumptions C12_cadence_independence_whole_program.
